@@ -83,7 +83,7 @@ extern long mpt_buffer_set(MPT_STRUCT(buffer) *buf, const MPT_STRUCT(type_traits
 	/* terminate overlapping target data */
 	if (fini) {
 		size_t off;
-		for (off = pos; off < used; off += elem_size) {
+		for (off = pos; off < used && off < end; off += elem_size) {
 			fini(ptr + off);
 		}
 	}
